@@ -2,7 +2,16 @@
 (***************************************************************************)
 (* spec -> impl: behaviours of EstimateLifecycle.tla generated with        *)
 (* TLC -simulate under an ENVIRONMENT PLAN that the driver can realise     *)
-(* through the public configuration alone (see MCEstimateLifecycle.tla).   *)
+(* through the public configuration alone.  `plan` = detector class        *)
+(*   "always"  threshold -> 1: the chi-square test fails on every observed *)
+(*             step;  "never"  threshold -> 0: it never fails;             *)
+(*   "real"    small threshold and ONE large unplanned impulse in step     *)
+(*             plan.man: no detection before it, a certain detection at    *)
+(*             the first observed step from then on, free afterwards.      *)
+(* PlanOK is a state CONSTRAINT (it prunes generated behaviours); it is    *)
+(* NOT part of the specification the real traces are validated against.    *)
+(* SimEmit prints, at the end of every step, what the driver needs to      *)
+(* realise the behaviour and to compare the mode sequence.                 *)
 (***************************************************************************)
 EXTENDS MCEstimateLifecycle
 
